@@ -110,6 +110,11 @@ impl Stats {
         self.samples.len() < MAX_SAMPLES
     }
     pub fn violate(&mut self, monitor: &str, signature: String, message: String, case: Value) {
+        // exceeding the logical STEP budget (H1) is never a verdict: the case is out of budget
+        if signature.contains("budget:steps") {
+            self.bump("step_budget_exceeded(inconclusive case)");
+            return;
+        }
         let c = self.viol_counts.entry(signature.clone()).or_insert(0);
         *c += 1;
         if *c == 1 && self.violations.len() < MAX_VIOLATIONS_KEPT {
